@@ -346,6 +346,8 @@ const (
 	c05FlagTOTP = 1
 	c05FlagU2F  = 2
 	c05FlagWA   = 4
+	// the stored profile was never touched by the webauthn registration path
+	c05FlagLegacy = 8
 )
 
 func c05BootValue(uid int) string { return fmt.Sprintf("bootstrap-otp-of-%s", c05Users[uid]) }
@@ -472,8 +474,15 @@ func (w *c05World) reset(f0, b0, f1, b1 int, oktaMode bool) {
 	for i, u := range c05Users {
 		p := &userProfile{U2fAuthData: map[int64]*u2fAuthData{}, TOTPAuthData: map[int64]*totpAuthData{},
 			WebauthnData: map[int64]*webauthAuthData{}}
-		p.FixupCredential(u, u)
-		p.WebauthnID = uint64(1000 + i)
+		if w.flags[i]&c05FlagLegacy != 0 && w.flags[i]&c05FlagWA == 0 {
+			// enrolled only through the legacy /u2f/Register* endpoints (or a profile that predates
+			// webauthn): FixupCredential never ran, so Username, DisplayName, WebauthnID and
+			// WebauthnData inside the stored profile are all empty
+			p.WebauthnData = nil
+		} else {
+			p.FixupCredential(u, u)
+			p.WebauthnID = uint64(1000 + i)
+		}
 		if w.flags[i]&c05FlagTOTP != 0 {
 			p.TOTPAuthData[1] = &totpAuthData{Enabled: true, CreatedAt: time.Now(), EncryptedSecret: w.totpEnc[i]}
 		}
